@@ -125,9 +125,9 @@ Example C06_example :
   let A  := mkT 10 [1] [11] in
   let A' := mkT 20 [1; 2] [12] in
   let B  := mkT 30 [3] [13] in
-  let ok := mkV true true true in
-  let softbad := mkV true false true in
-  let gone := mkV true true false in
+  let ok := mkV true true true true in
+  let softbad := mkV true true false true in
+  let gone := mkV true true true false in
   let ops := [InjectForeign A ok; InjectForeign A' ok; InjectForeign B softbad; InjectForeign A ok;
               ExecBlock true [(A', ok)];
               Refresh [(10, gone); (30, ok)];
